@@ -27,8 +27,12 @@ RULES = {
     "R6": "no store of deserialized data into an IR object is controlled by an ==/!= comparison of objects whose class "
     "defines a partial __eq__ (one that ignores part of the instance state, e.g. denotations): 'equal' does not mean "
     "'carries the same information', so skipping or choosing the store on it drops proto content",
+    "R7": "no early exit of a writer bypasses a field write: for every `return` inside a serialize function, each proto "
+    "field write that would still be reached if the function went on is either data-dependent on what the return's "
+    "guard tested (nothing to write), or the return follows a whole-message CopyFrom, or it follows a logged warning "
+    "(declared unsupported case)",
 }
-FLOORS = {"R1": 100, "R2": 40, "R3": 30, "R4": 1, "R5": 40, "R6": 20}
+FLOORS = {"R1": 100, "R2": 40, "R3": 30, "R4": 1, "R5": 40, "R6": 20, "R7": 6}
 EXPLANATION = (
     "Types every proto expression of serde.py through parameter annotations and the parsed onnx-ml.proto schema, "
     "collects per message the fields the deserializer reads and the serializer writes (attribute access, HasField, "
@@ -386,6 +390,120 @@ def rule_r5(ctx):
     ctx.require(n >= 40, f"only {n} direct field copies recognised")
 
 
+def writer_funcs(ctx):
+    return [f for f in ctx.repo.module(SERDE).all_funcs if "serialize" in f.name and "deserialize" not in f.name]
+
+
+def _proto_writes(ctx, f):
+    """[(stmt, value expressions)] for statements that write a field of a proto-typed receiver."""
+    ty = ctx.typer
+
+    def is_proto(e):
+        return any(a[0] in ("proto", "protorep") for a in ty.type_of(f, e))
+
+    out = []
+    for st in own_nodes(f.node):
+        if isinstance(st, (ast.Assign, ast.AugAssign)):
+            tg = st.targets if isinstance(st, ast.Assign) else [st.target]
+            for t in tg:
+                if isinstance(t, ast.Attribute) and is_proto(t.value):
+                    out.append((st, [st.value]))
+        elif isinstance(st, ast.Expr) and isinstance(st.value, ast.Call) and isinstance(st.value.func, ast.Attribute):
+            c = st.value
+            recv = c.func.value
+            if c.func.attr in ("append", "extend", "add", "CopyFrom", "MergeFrom") and (is_proto(recv) or (isinstance(recv, ast.Call) and isinstance(recv.func, ast.Attribute) and is_proto(recv.func.value))):
+                out.append((st, list(c.args) + [k.value for k in c.keywords]))
+            elif "serialize" in (dotted_of(c.func) or "") and c.args and is_proto(c.args[0]):
+                out.append((st, list(c.args[1:])))
+        elif isinstance(st, ast.Expr) and isinstance(st.value, ast.Call) and "serialize" in (dotted_of(st.value.func) or "") and st.value.args \
+                and is_proto(st.value.args[0]):
+            out.append((st, list(st.value.args[1:])))
+    return out
+
+
+def _closure_names(f, exprs, depth=4) -> set[str]:
+    """Texts of names/attributes the expressions data-depend on, through the function's locals and loop variables."""
+    seen_names: set[str] = set()
+    out: set[str] = set()
+    work = list(exprs)
+    for _ in range(depth):
+        nxt = []
+        for e in work:
+            for x in ast.walk(e):
+                if isinstance(x, ast.Attribute):
+                    out.add(norm(x))
+                if isinstance(x, ast.Name):
+                    out.add(x.id)
+                    if x.id not in seen_names:
+                        seen_names.add(x.id)
+                        for n in own_nodes(f.node):
+                            if isinstance(n, (ast.Assign, ast.AnnAssign)) and getattr(n, "value", None) is not None:
+                                tg = n.targets if isinstance(n, ast.Assign) else [n.target]
+                                if any(isinstance(y, ast.Name) and y.id == x.id for t in tg for y in ast.walk(t)):
+                                    nxt.append(n.value)
+                            elif isinstance(n, (ast.For, ast.comprehension)) and any(isinstance(y, ast.Name) and y.id == x.id for y in ast.walk(n.target)):
+                                nxt.append(n.iter)
+        work = nxt
+    return out
+
+
+def rule_r7(ctx):
+    n_ret = 0
+    for f in writer_funcs(ctx):
+        rets = [r for r in own_nodes(f.node) if isinstance(r, ast.Return) and r is not f.node.body[-1]]
+        if not rets:
+            continue
+        cfg = CFG(f.node)
+        writes = _proto_writes(ctx, f)
+        for r in rets:
+            blk = getattr(r, "_parent", None)
+            # statements that would run next if the return were not there: reachable from the statement after the
+            # innermost enclosing statement that has a successor in its block
+            cont = set()
+            child, par = r, blk
+            while par is not None:
+                for fld in ("body", "orelse", "finalbody"):
+                    b = getattr(par, fld, None)
+                    if isinstance(b, list) and child in b:
+                        for nxt in b[b.index(child) + 1:]:
+                            for cn_ in cfg.node_of(nxt):
+                                cont |= cfg.reachable_from(cn_, exc=False) | {cn_.id}
+                if par is f.node:
+                    break
+                child, par = par, getattr(par, "_parent", None)
+            bypassed = [(st, vals) for st, vals in writes if any(x.id in cont for x in cfg.node_of(st))]
+            if not bypassed:
+                continue
+            n_ret += 1
+            # justifications
+            body = getattr(blk, "body", []) if r in getattr(blk, "body", []) else getattr(blk, "orelse", [])
+            before = body[: body.index(r)] if r in body else []
+            copied = any(isinstance(x, ast.Call) and isinstance(x.func, ast.Attribute) and x.func.attr == "CopyFrom" for s_ in before for x in ast.walk(s_))
+            warned = any(isinstance(x, ast.Call) and (dotted_of(x.func) or "").startswith("logger.") for s_ in before for x in ast.walk(s_))
+            tested = set()
+            if isinstance(blk, ast.If):
+                for x in ast.walk(blk.test):
+                    if isinstance(x, ast.Attribute):
+                        tested.add(norm(x))
+                    elif isinstance(x, ast.Name):
+                        tested.add(x.id)
+            tested -= {"None", "True", "False", "isinstance", "len", "hasattr", "getattr"}
+            bad = None
+            if not (copied or warned):
+                for st, vals in bypassed:
+                    deps = _closure_names(f, vals)
+                    if not (deps & tested) and not any(d.startswith(t + ".") or t.startswith(d + ".") for d in deps for t in tested):
+                        bad = st
+                        break
+            why = "follows a whole-message CopyFrom" if copied else "follows a logged warning" if warned else "bypassed writes depend on the tested value"
+            ctx.check("R7", f"{f.local}: early return under `{short(norm(blk.test)) if isinstance(blk, ast.If) else ''}` bypasses no independent field write", bad is None, f, r,
+                      (f"this return skips `{short(norm(bad))}`, whose value does not depend on what the guard tested "
+                       f"(`{short(norm(blk.test)) if isinstance(blk, ast.If) else ''}`): that field is lost for the inputs taking this exit") if bad is not None else "",
+                      how=f"continuation of the return ∩ proto writes; justification: {why}",
+                      construct=f"return bypasses {short(norm(bad)) if bad is not None else ''}")
+    ctx.require(n_ret >= 6, f"only {n_ret} early returns with bypassed writes examined in the serializer")
+
+
 def partial_eq_classes(ctx) -> dict[str, tuple]:
     """{class key: (ClassInfo, ignored fields)} for package classes whose own/inherited __eq__ ignores instance state."""
     repo = ctx.repo
@@ -481,6 +599,7 @@ def rule_r6(ctx):
 
 def run(ctx):
     rule_r6(ctx)
+    rule_r7(ctx)
     rule_r1(ctx)
     rule_r2(ctx)
     rule_r3(ctx)
